@@ -479,7 +479,8 @@ def make_torch():
     m.inference_mode = lambda mode=True: _InferenceMode(mode)
     m.is_inference_mode_enabled = lambda: T.INFERENCE_MODE[0]
     m.is_grad_enabled = lambda: T.GRAD_ENABLED[0]
-    m.set_grad_enabled = lambda f: _NoGrad(f)
+    m.set_grad_enabled = lambda f: _NoGrad(bool(f))
+    m.get_default_dtype = lambda: DT("float32")
 
     def _unmodelled(name):
         def f(*a, **k):
